@@ -592,6 +592,7 @@ pub async fn run_acceptor_server(
         let ctx = ctx.clone();
         async move { Ok::<_, std::convert::Infallible>(tower::service_fn(move |req: http::Request<hyperdriver::Body>| handle(ctx.clone(), conn, req))) }
     });
+    let make = LazyMake { inner: make, asked: false };
     macro_rules! serve {
         ($b:expr) => {{
             let b = $b;
